@@ -7,7 +7,7 @@ from harness.pyval import enc, dec
 PID = 'C13'
 RULE = ('op in {map, starmap, filter, scan} whose user function raises on a chosen subset of the items (first, last, '
         'consecutive, all, random), followed by one of {ignore, error.map, error router, nothing}, optionally followed by '
-        'further (stateful) operators and optionally inside group_by/roll inner pipelines; 1-4 interleaved keys. Oracle: the '
+        'further (stateful) operators and optionally inside group_by/roll inner pipelines; 1-4 interleaved keys; the same pipeline object, error router and dead-letter observable are also subscribed a second and third time and must behave as the first time. Oracle: the '
         'same pipeline with the NON-raising function on the trace from which the failing items were removed (ignore / '
         'router), with the mapped item in place (error.map), the exceptions in order on the dead-letter observable '
         'which completes with the stream (router), on_error at the failing step (no handler); exactly one mux error per '
@@ -93,6 +93,10 @@ def run_impl(case):
         for j, st in enumerate(b):
             comp[owner[j]] += st
         obs['composed'] = comp
+    if len(case['trace']) % 2 == 0:
+        # the same pipeline, error router and dead-letter observable subscribed a second and a third time
+        from harness import muxprop
+        obs['resub'] = muxprop.resubscription_mismatch(case['ast'], case['trace'], runs=3)
     return obs
 
 
@@ -100,6 +104,8 @@ def oracle(case, obs):
     if 'raised' in obs:
         return {'sig': 'errors:raised', 'what': 'an exception escaped to the caller: %s' % obs['raised']}
     from harness.pyval import py_fn
+    if obs.get('resub'):
+        return {'sig': 'errors:re-subscription', 'what': obs['resub']}
     bad = py_fn(case['bad'])
     steps = obs['steps']
     if not case['simple']:
